@@ -804,3 +804,349 @@ Lemma never_asserts : forall evs, run maxfd reserved (init ninfra) evs <> None.
 Proof.
   intros evs H. pose proof (run_inv evs (init ninfra) init_inv) as R. rewrite H in R. exact R.
 Qed.
+
+(* ------------------------------------------------------------------ quiescence *)
+(* every open descriptor outside the infrastructure is being closed *)
+Definition all_closing (s : st) : Prop :=
+  forall f, fopen (tbl s) f = true -> f < ninfra \/ closing s f = true.
+
+Lemma comm_close_effect : forall s f,
+  tbl (comm_close s f) = tbl s /\
+  (forall g, closing s g = true -> closing (comm_close s f) g = true) /\
+  (fopen (tbl s) f = true -> closing (comm_close s f) f = true).
+Proof.
+  intros s f. unfold comm_close. destruct (closing s f) eqn:Ec; [auto|].
+  destruct (fopen (tbl s) f) eqn:Eo; cbn [negb tbl closing].
+  - split; [reflexivity|]. split; [|intros; apply upd_same].
+    intros g Hg. destruct (Nat.eq_dec g f) as [->|Hne]; [apply upd_same|now rewrite upd_other].
+  - split; [reflexivity|]. split; [auto|discriminate].
+Qed.
+
+Lemma timeout_step : forall s f, Inv s ->
+  exists s', step maxfd reserved s (ETimeout f) = Some s' /\ Inv s' /\ tbl s' = tbl s /\
+             (forall g, closing s g = true -> closing s' g = true) /\
+             (fopen (tbl s) f = true -> f < ninfra \/ closing s' f = true).
+Proof.
+  intros s f I. pose proof (step_inv s (ETimeout f) I) as Hok. unfold step in *.
+  destruct (active s f && tmo s f) eqn:E.
+  - apply andb_true_iff in E. destruct E as [Ha Ht].
+    pose proof (i_act _ _ I f (fun x => x) Ha) as Hact. unfold act_ok in Hact.
+    destruct (own s f) eqn:Ho.
+    + contradiction.
+    + exists s. split; [reflexivity|]. split; [exact I|]. split; [reflexivity|]. split; [auto|].
+      intros _. left. now apply (i_infra2 _ _ I).
+    + eexists. split; [reflexivity|]. split; [exact Hok|].
+      destruct (comm_close_effect s f) as (A & B & C). repeat split; auto.
+    + eexists. split; [reflexivity|]. split; [exact Hok|]. unfold close_server.
+      destruct (comm_close_effect (set_hs s (upd (hs s) f [])) f) as (A & B & C). repeat split; auto.
+    + eexists. split; [reflexivity|]. split; [exact Hok|]. unfold find_and_close.
+      destruct Hact as (_ & _ & Hin). apply existsb_eqb_in in Hin. rewrite Hin.
+      match goal with |- context [comm_close ?x f] => destruct (comm_close_effect x f) as (A & B & C) end.
+      repeat split; auto.
+  - exists s. split; [reflexivity|]. split; [exact I|]. split; [reflexivity|]. split; [auto|]. intros Hop.
+    apply andb_false_iff in E. destruct E as [E|E].
+    + right. unfold active in E. rewrite Hop in E. cbn [andb] in E. destruct (closing s f); [reflexivity|discriminate].
+    + destruct (closing s f) eqn:Ec; [now right|].
+      assert (Ha : active s f = true) by (apply active_spec; auto).
+      pose proof (i_act _ _ I f (fun x => x) Ha) as Hact. unfold act_ok in Hact.
+      destruct (own s f) eqn:Ho; try (destruct Hact as (_ & T & _); congruence).
+      * contradiction.
+      * left. now apply (i_infra2 _ _ I).
+Qed.
+
+Lemma fire_list : forall l s, Inv s ->
+  exists s1, run maxfd reserved s (map ETimeout l) = Some s1 /\ Inv s1 /\ tbl s1 = tbl s /\
+             (forall g, closing s g = true -> closing s1 g = true) /\
+             (forall f, In f l -> fopen (tbl s) f = true -> f < ninfra \/ closing s1 f = true).
+Proof.
+  induction l as [|f r IH]; intros s I; cbn [map run].
+  - exists s. split; [reflexivity|]. split; [exact I|]. split; [reflexivity|]. split; [auto|]. contradiction.
+  - destruct (timeout_step s f I) as (s' & Hs & I' & Ht & Hm & Hf). rewrite Hs.
+    destruct (IH s' I') as (s1 & Hr & I1 & Ht1 & Hm1 & Hf1).
+    exists s1. split; [exact Hr|]. split; [exact I1|]. split; [congruence|]. split; [auto|].
+    intros g [<-|Hin] Hop.
+    + destruct (Hf Hop) as [L|C]; [now left|right; auto].
+    + apply Hf1; [assumption|]. now rewrite Ht.
+Qed.
+
+Lemma fire_timeouts_ok : forall s, Inv s ->
+  exists s1, fire_timeouts maxfd reserved s = Some s1 /\ Inv s1 /\ all_closing s1.
+Proof.
+  intros s I. unfold fire_timeouts. destruct (fire_list (seq 0 maxfd) s I) as (s1 & Hr & I1 & Ht & _ & Hf).
+  exists s1. split; [exact Hr|]. split; [exact I1|]. intros f Hop. rewrite Ht in Hop.
+  apply Hf; [|assumption]. apply in_seq. destruct (i_fds _ _ I) as (_ & Hb & _). specialize (Hb f Hop). lia.
+Qed.
+
+Lemma run_step_allc : forall s c r, Inv s -> all_closing s -> q s = c :: r ->
+  exists s1, step maxfd reserved s (ERun true) = Some s1 /\ Inv s1 /\ all_closing s1 /\ q s1 = r.
+Proof.
+  intros s c r I AC Hq. pose proof (step_inv s (ERun true) I) as Hok. unfold step in *. rewrite Hq in *.
+  assert (Hnone : forall o, o <> OInfra ->
+            find_own maxfd (mkSt (tbl s) (kern s) (closing s) (own s) (hs s) (tmo s) r (pool s) (pcount s)) o = None).
+  { intros o Hne. match goal with |- ?x = None => destruct x eqn:F end; [|reflexivity].
+    destruct (find_own_some _ _ _ F) as (_ & Ha & Ho). apply active_spec in Ha. cbn [tbl closing own] in *.
+    destruct Ha as [A1 A2]. destruct (AC n A1) as [L|C]; [|congruence].
+    destruct (i_infra _ _ I n L) as (_ & _ & E). congruence. }
+  destruct c as [o|f].
+  - assert (Hres : forall x, x = Some (mkSt (tbl s) (kern s) (closing s) (own s) (hs s) (tmo s) r (pool s) (pcount s)) ->
+                   ok x -> exists s1, x = Some s1 /\ Inv s1 /\ all_closing s1 /\ q s1 = r).
+    { intros x -> Hx. eexists. split; [reflexivity|]. split; [exact Hx|]. split; [exact AC|reflexivity]. }
+    destruct o; try (apply Hres; [reflexivity|exact Hok]).
+    rewrite Hnone in * by discriminate. apply Hres; [reflexivity|exact Hok].
+  - unfold close_complete in *. cbn [tbl kern closing own hs tmo q pool pcount] in *.
+    destruct (fd_close maxfd (tbl s) f) as [d|] eqn:Fc; [|contradiction].
+    eexists. split; [reflexivity|]. split; [exact Hok|]. split; [|reflexivity].
+    intros g Hop. cbn [tbl closing] in *.
+    assert (Hcl : closing s f = true).
+    { pose proof (i_q _ _ I f) as H. rewrite Hq in H. unfold ncomplete in H. cbn [filter is_complete] in H.
+      rewrite Nat.eqb_refl in H. cbn [length] in H. destruct (closing s f); [reflexivity|discriminate]. }
+    destruct (i_closing _ _ I f Hcl) as (Hof & _ & _).
+    destruct (fd_close_ok maxfd (tbl s) f (i_fds _ _ I) Hof) as (d' & Hc' & _ & Hfl & _).
+    rewrite Fc in Hc'. inversion Hc'; subst d'. rewrite Hfl in Hop.
+    destruct (Nat.eq_dec g f) as [->|Hne]; [rewrite upd_same in Hop; discriminate|].
+    rewrite upd_other in Hop |- * by assumption. now apply AC.
+Qed.
+
+Lemma drain_allc : forall n s, Inv s -> all_closing s -> length (q s) <= n ->
+  exists s', drain maxfd reserved n s = Some s' /\ Inv s' /\ all_closing s' /\ q s' = [].
+Proof.
+  induction n as [|n IH]; intros s I AC Hl; cbn [drain].
+  - exists s. split; [reflexivity|]. split; [exact I|]. split; [exact AC|]. destruct (q s); [reflexivity|cbn in Hl; lia].
+  - destruct (q s) as [|c r] eqn:Hq; [exists s; auto|].
+    destruct (run_step_allc s c r I AC Hq) as (s1 & Hs & I1 & AC1 & Hq1). rewrite Hs.
+    apply IH; auto. rewrite Hq1. cbn in Hl. lia.
+Qed.
+
+(* the quiescent state: only the infrastructure descriptors are open, in the table and in the kernel *)
+Definition quiescent (s : st) : Prop :=
+  q s = [] /\ (forall f, fopen (tbl s) f = true <-> f < ninfra) /\
+  (forall f, kern s f = fopen (tbl s) f) /\ (forall f, closing s f = false) /\
+  fnum (tbl s) = Z.of_nat ninfra /\ fbig (tbl s) = (Z.of_nat ninfra - 1)%Z /\
+  pool s = [] /\ pcount s = 0%Z.
+
+Lemma allc_empty_quiescent : forall s, Inv s -> all_closing s -> q s = [] -> quiescent s.
+Proof.
+  intros s I AC Hq.
+  assert (Hnc : forall f, closing s f = false).
+  { intros f. pose proof (i_q _ _ I f) as H. rewrite Hq in H. cbn in H. destruct (closing s f); [discriminate|reflexivity]. }
+  assert (Hopen : forall f, fopen (tbl s) f = true <-> f < ninfra).
+  { intros f. split.
+    - intros Hop. destruct (AC f Hop) as [L|C]; [assumption|]. rewrite Hnc in C. discriminate.
+    - intros L. apply (i_infra _ _ I f L). }
+  assert (Hext : forall i, i < maxfd -> fopen (tbl s) i = (i <? ninfra)).
+  { intros i _. destruct (i <? ninfra) eqn:E.
+    - apply Hopen. now apply Nat.ltb_lt.
+    - destruct (fopen (tbl s) i) eqn:Eo; [|reflexivity]. apply Hopen in Eo. apply Nat.ltb_ge in E. lia. }
+  destruct (i_fds _ _ I) as (Hn & Hb & Hg).
+  assert (Hpool : pool s = []).
+  { destruct (pool s) as [|f r] eqn:Hp; [reflexivity|].
+    destruct (i_pool _ _ I) as (_ & P2 & _). rewrite Hp in P2. destruct (P2 f ltac:(now left)) as [A B].
+    apply active_spec in A. destruct A as [A _]. apply Hopen in A.
+    destruct (i_infra _ _ I f A) as (_ & _ & E). congruence. }
+  repeat split; auto.
+  - apply Hopen.
+  - apply Hopen.
+  - apply (i_kern _ _ I).
+  - rewrite Hn, (count_ext maxfd _ (fun f => f <? ninfra)) by exact Hext. now rewrite count_ltb.
+  - rewrite Hg. apply lower_unique.
+    + lia.
+    + intros Hp. apply Hopen. lia.
+    + intros i _ Hi. apply Hopen in Hi. lia.
+  - destruct (i_pool _ _ I) as (_ & _ & P3). rewrite P3, Hpool. reflexivity.
+Qed.
+
+Lemma settle_quiescent : forall s, Inv s -> exists s', settle maxfd reserved s = Some s' /\ Inv s' /\ quiescent s'.
+Proof.
+  intros s I. unfold settle. destruct (fire_timeouts_ok s I) as (s1 & Hf & I1 & AC1). rewrite Hf.
+  destruct (drain_allc (length (q s1)) s1 I1 AC1 (le_n _)) as (s' & Hd & I' & AC' & Hq').
+  exists s'. split; [exact Hd|]. split; [exact I'|]. now apply allc_empty_quiescent.
+Qed.
+
+(* after ANY history of events: when every armed timeout has fired and the call queue has run dry, exactly the
+   descriptors that were open before traffic are open *)
+Lemma quiescence : forall evs s, run maxfd reserved (init ninfra) evs = Some s ->
+  exists s', settle maxfd reserved s = Some s' /\ quiescent s'.
+Proof.
+  intros evs s H. destruct (settle_quiescent s (reachable_inv evs s H)) as (s' & A & _ & B). eauto.
+Qed.
+
+Lemma init_quiescent : quiescent (init ninfra).
+Proof.
+  apply allc_empty_quiescent; [exact init_inv| |reflexivity].
+  intros f Hf. left. cbn in Hf. now apply Nat.ltb_lt.
+Qed.
+
+(* with an empty call queue, every open descriptor is accounted for: infrastructure, a live job with an armed
+   timeout and its close handler, or an idle pool entry with an armed timeout *)
+Lemma no_orphans : forall s f, Inv s -> q s = [] -> fopen (tbl s) f = true ->
+  kern s f = true /\ closing s f = false /\
+  ((f < ninfra /\ own s f = OInfra) \/
+   (exists c, (own s f = OCli c \/ own s f = OSrv c) /\ hs s f = [own s f] /\ tmo s f = true /\ ~ In f (pool s)) \/
+   (own s f = OIdle /\ In f (pool s) /\ tmo s f = true /\ hs s f = [])).
+Proof.
+  intros s f I Hq Hop.
+  assert (Hnc : closing s f = false).
+  { pose proof (i_q _ _ I f) as H. rewrite Hq in H. cbn in H. destruct (closing s f); [discriminate|reflexivity]. }
+  split; [now rewrite (i_kern _ _ I)|]. split; [exact Hnc|].
+  assert (Ha : active s f = true) by (apply active_spec; auto).
+  pose proof (i_act _ _ I f (fun x => x) Ha) as Hact. unfold act_ok in Hact.
+  destruct (own s f) eqn:Ho.
+  - contradiction.
+  - left. split; [now apply (i_infra2 _ _ I)|reflexivity].
+  - right. left. exists c. destruct Hact as (A & B & C). repeat split; auto.
+  - right. left. exists c. destruct Hact as (A & B & C). repeat split; auto.
+  - right. right. destruct Hact as (A & B & C). auto.
+Qed.
+
+(* one owner per descriptor, one descriptor per job *)
+Lemma one_descriptor_per_job : forall s f g, Inv s -> active s f = true -> active s g = true ->
+  own s f = own s g -> is_job (own s f) = true -> f = g.
+Proof. intros s f g I. apply (i_uniq _ _ I). Qed.
+
+(* the table, Number_FD, Biggest_FD and the kernel agree in every reachable state *)
+Lemma reachable_accounting : forall evs s, run maxfd reserved (init ninfra) evs = Some s ->
+  fnum (tbl s) = Z.of_nat (count_open maxfd (fopen (tbl s))) /\
+  fbig (tbl s) = lower (fopen (tbl s)) maxfd /\
+  (forall f, kern s f = fopen (tbl s) f) /\
+  (forall f, fopen (tbl s) f = true -> f < maxfd) /\
+  (forall f, ncomplete f (q s) = if closing s f then 1 else 0) /\
+  pcount s = Z.of_nat (length (pool s)).
+Proof.
+  intros evs s H. pose proof (reachable_inv evs s H) as I. destruct (i_fds _ _ I) as (A & B & C).
+  repeat split; auto; try apply I.
+Qed.
+
+(* closing a client connection from anywhere notifies its owner before the descriptor is released *)
+Lemma close_notifies_owner : forall s f o, Inv s -> active s f = true -> own s f = o -> is_job o = true ->
+  exists s', step maxfd reserved s (EClose f) = Some s' /             q s' = q s ++ [CHandler o; CComplete f] /\ closing s' f = true /\ fopen (tbl s') f = true.
+Proof.
+  intros s f o I Ha Ho Hj. unfold step. rewrite Ha, Ho, Hj. cbn [andb].
+  pose proof (i_act _ _ I f (fun x => x) Ha) as Hact. unfold act_ok in Hact. rewrite Ho in Hact.
+  assert (Hh : hs s f = [o]) by (destruct o; try discriminate; tauto).
+  eexists. split; [reflexivity|]. apply active_spec in Ha. destruct Ha as [A B].
+  unfold comm_close. rewrite B, A. cbn [negb q closing tbl]. rewrite Hh, upd_same. auto.
+Qed.
+
+(* when the client's close handler runs and the transaction is aborted, its server connection is released too *)
+Lemma owner_end_releases_server : forall s c r f, Inv s -> q s = CHandler (OCli c) :: r ->
+  active s f = true -> own s f = OSrv c ->
+  exists s', step maxfd reserved s (ERun true) = Some s' /\ closing s' f = true /             q s' = r ++ [CComplete f].
+Proof.
+  intros s c r f I Hq Ha Ho. unfold step. rewrite Hq.
+  pose proof (dequeue_handler_inv _ _ _ I Hq) as I1. unfold set_q in I1.
+  match goal with |- context [find_own maxfd ?x _] => set (s1 := x) in * end.
+  destruct (find_own maxfd s1 (OSrv c)) as [g|] eqn:F.
+  - destruct (find_own_some _ _ _ F) as (_ & Hag & Hog).
+    assert (g = f).
+    { apply (i_uniq _ _ I1 g f); auto. rewrite Hog. exact (eq_sym Ho). now rewrite Hog. }
+    subst g. eexists. split; [reflexivity|]. unfold close_server.
+    apply active_spec in Hag. destruct Hag as [A B]. unfold comm_close.
+    cbn [closing tbl set_hs hs q] in *. rewrite B, A. cbn [negb closing q hs]. rewrite !upd_same. auto.
+  - exfalso. eapply (find_own_none _ _ I1 F f); auto.
+Qed.
+
+(* PconnPool::push refuses (closes) the connection when descriptor usage is high *)
+Lemma push_refused_when_fd_usage_high : forall s c f, Inv s -> find_own maxfd s (OSrv c) = Some f ->
+  fd_usage_high maxfd reserved (fnum (tbl s)) = true ->
+  exists s', step maxfd reserved s (ESrvDone c true) = Some s' /\ pool s' = pool s /\ closing s' f = true.
+Proof.
+  intros s c f I F Hh. unfold step. rewrite F. destruct (find_own_some _ _ _ F) as (_ & Ha & Ho).
+  eexists. split; [reflexivity|]. unfold pool_push. rewrite Hh.
+  apply active_spec in Ha. destruct Ha as [A B]. unfold comm_close. cbn [closing tbl]. rewrite B, A.
+  cbn [negb pool closing]. rewrite upd_same. auto.
+Qed.
+
+(* ------------------------------------------------------------------ the history driver of the runner *)
+Lemma drain_inv : forall n s, Inv s -> ok (drain maxfd reserved n s).
+Proof.
+  induction n as [|n IH]; intros s I; cbn [drain]; [exact I|].
+  destruct (q s); [exact I|].
+  pose proof (step_inv s (ERun true) I) as H. destruct (step maxfd reserved s (ERun true)); [|contradiction].
+  now apply IH.
+Qed.
+
+Lemma run_macro_inv : forall s m, Inv s -> ok (run_macro maxfd reserved s m).
+Proof.
+  intros s m I. destruct m as [e|c retr| |]; unfold run_macro.
+  - now apply step_inv.
+  - destruct (pool s); [now apply step_inv|]. destruct retr; [now apply step_inv|].
+    pose proof (step_inv s (EPop c false) I) as H.
+    destruct (step maxfd reserved s (EPop c false)); [|contradiction]. now apply step_inv.
+  - destruct (pool s); [exact I|now apply step_inv].
+  - now apply drain_inv.
+Qed.
+
+Lemma run_macros_inv : forall ms s, Inv s -> ok (run_macros maxfd reserved s ms).
+Proof.
+  induction ms as [|m r IH]; intros s I; cbn [run_macros]; [exact I|].
+  pose proof (run_macro_inv s m I) as H. destruct (run_macro maxfd reserved s m); [|contradiction]. now apply IH.
+Qed.
+
+Lemma run_seq_inv : forall txs s, Inv s ->
+  match run_seq maxfd reserved s txs with Some (s', _) => Inv s' | None => False end.
+Proof.
+  induction txs as [|t r IH]; intros s I; cbn [run_seq]; [exact I|].
+  pose proof (run_macros_inv (t ++ [MDrain]) s I) as H.
+  destruct (run_macros maxfd reserved s (t ++ [MDrain])) as [s1|]; [|contradiction].
+  specialize (IH s1 H). destruct (run_seq maxfd reserved s1 r) as [[s2 l]|]; [exact IH|contradiction].
+Qed.
+
+Lemma observe_quiescent : forall s, quiescent s ->
+  qo_leak (observe maxfd (init ninfra) s) = 0%Z /\ qo_kleak (observe maxfd (init ninfra) s) = 0%Z /  qo_acct (observe maxfd (init ninfra) s) = true /\ qo_idle (observe maxfd (init ninfra) s) = 0 /  qo_queue (observe maxfd (init ninfra) s) = 0.
+Proof.
+  intros s (Hq & Hop & Hk & Hc & Hn & Hb & Hp & Hpc).
+  assert (Hext : forall i, i < maxfd -> fopen (tbl s) i = (i <? ninfra)).
+  { intros i _. destruct (i <? ninfra) eqn:E.
+    - apply Hop. now apply Nat.ltb_lt.
+    - destruct (fopen (tbl s) i) eqn:Eo; [|reflexivity]. apply Hop in Eo. apply Nat.ltb_ge in E. lia. }
+  assert (C1 : count_open maxfd (fopen (tbl s)) = ninfra).
+  { rewrite (count_ext maxfd _ (fun f => f <? ninfra)) by exact Hext. now apply count_ltb. }
+  assert (C2 : count_open maxfd (kern s) = ninfra).
+  { rewrite (count_ext maxfd _ (fopen (tbl s))) by (intros; apply Hk). exact C1. }
+  assert (C3 : count_open maxfd (fun f => f <? ninfra) = ninfra) by now apply count_ltb.
+  unfold observe. cbn [qo_leak qo_kleak qo_acct qo_idle qo_queue init tbl kern fnum].
+  rewrite C1, C2, C3, Hn, Hp, Hq. repeat split; try lia.
+  apply andb_true_iff. split; [lia|apply Nat.eqb_refl].
+Qed.
+
+(* the prediction printed by the runner: for EVERY list of transactions the model runs without a failed assertion
+   and ends with no extra descriptor, consistent accounting, an empty pool and an empty call queue *)
+Lemma hist_prediction : forall seqmode txs,
+  exists o idle, hist_result maxfd ninfra reserved seqmode txs = Some (o, idle) /                 qo_leak o = 0%Z /\ qo_kleak o = 0%Z /\ qo_acct o = true /\ qo_idle o = 0 /\ qo_queue o = 0.
+Proof.
+  intros seqmode txs. unfold hist_result. destruct seqmode.
+  - pose proof (run_seq_inv txs (init ninfra) init_inv) as H.
+    destruct (run_seq maxfd reserved (init ninfra) txs) as [[s1 idle]|]; [|contradiction].
+    destruct (settle_quiescent s1 H) as (s2 & Hs & _ & Q). rewrite Hs.
+    exists (observe maxfd (init ninfra) s2), idle. split; [reflexivity|]. now apply observe_quiescent.
+  - pose proof (run_macros_inv (rr (length (concat txs)) txs) (init ninfra) init_inv) as H.
+    destruct (run_macros maxfd reserved (init ninfra) (rr (length (concat txs)) txs)) as [s1|]; [|contradiction].
+    destruct (settle_quiescent s1 H) as (s2 & Hs & _ & Q). rewrite Hs.
+    exists (observe maxfd (init ninfra) s2), []. split; [reflexivity|]. now apply observe_quiescent.
+Qed.
+
+End ProtoProofs.
+
+(* ------------------------------------------------------------------ _comm_close in isolation *)
+Lemma comm_close_idempotent : forall s f, comm_close (comm_close s f) f = comm_close s f.
+Proof.
+  intros s f.
+  assert (H : forall s', closing s' f = true -> comm_close s' f = s').
+  { intros s' Hc. unfold comm_close. now rewrite Hc. }
+  destruct (closing s f) eqn:Ec.
+  - now rewrite !(H s Ec).
+  - destruct (fopen (tbl s) f) eqn:Eo.
+    + apply H. unfold comm_close. rewrite Ec, Eo. cbn [negb closing]. apply upd_same.
+    + assert (E : comm_close s f = s) by (unfold comm_close; now rewrite Ec, Eo). now rewrite !E.
+Qed.
+
+(* the close handlers are scheduled once each, in list order (most recently added first), followed by
+   comm_close_complete; the handler list is left empty and the timeout removed *)
+Lemma comm_close_schedules : forall s f, active s f = true ->
+  q (comm_close s f) = q s ++ map CHandler (hs s f) ++ [CComplete f] /\
+  hs (comm_close s f) f = [] /\ tmo (comm_close s f) f = false /\ closing (comm_close s f) f = true.
+Proof.
+  intros s f Ha. apply andb_true_iff in Ha. destruct Ha as [Ho Hc].
+  unfold comm_close. destruct (closing s f); [discriminate|]. rewrite Ho. cbn [negb q hs tmo closing].
+  rewrite !upd_same. auto.
+Qed.
